@@ -274,6 +274,9 @@ func PrintTree(r *lib.Rng, t *BTree, byID map[int]Atom, argStyle string, hostile
 						case (at.Op == "in" || at.Op == "inempty") && r.Chance(1, 2):
 							// the list placeholder inside parentheses: gorm expands it in place
 							a = strings.Replace(a, "IN ?", "IN (?)", 1)
+						case (at.Op == "in" || at.Op == "inempty") && r.Chance(1, 3):
+							// the list as []interface{} (Statement.AddVar has an arm of its own for it)
+							kind = "ifaceslice"
 						case at.Op == "in" || at.Op == "inempty":
 						case !r.Chance(1, 4):
 						case at.IsStr:
@@ -341,7 +344,7 @@ type Unit struct {
 	//          mapii map[interface{}]interface{} | pk Where(k) | pkstr Where("k") | pkslice Where([]int64)
 	//  struct: "" | sel (the members' columns selected by name: zero values count) |
 	//          slice (a slice of structs, Elems = members per element)
-	//  named:  "" map | sqlnamed sql.Named(...) arguments
+	//  named:  "" map | sqlnamed sql.Named(...) arguments | structarg / structptr a struct (pointer) whose fields are the arguments
 	//  empty_map: "" | mapss | nilmap ; empty_struct: "" | slice ; group with no calls: empty group
 	Via   string  `json:"via,omitempty"`
 	Elems [][]int `json:"elems,omitempty"`
@@ -619,8 +622,49 @@ func wrapValue(v interface{}, kind string) interface{} {
 		}
 		n := asInt64(v)
 		return &n
+	case "ifaceslice":
+		rv := reflect.ValueOf(v)
+		if rv.Kind() != reflect.Slice {
+			return v
+		}
+		out := make([]interface{}, rv.Len())
+		for i := range out {
+			out[i] = rv.Index(i).Interface()
+		}
+		return out
 	}
 	return v
+}
+
+// namedStruct: the named arguments as the fields of a struct value (NamedExpr reads exported fields)
+func namedStruct(named map[string]interface{}, ptr bool) interface{} {
+	keys := []string{}
+	for k := range named {
+		keys = append(keys, k)
+	}
+	sort.Strings(keys)
+	fields := []reflect.StructField{}
+	for _, k := range keys {
+		fields = append(fields, reflect.StructField{Name: k, Type: reflect.TypeOf(named[k])})
+	}
+	st := reflect.New(reflect.StructOf(fields))
+	for i, k := range keys {
+		st.Elem().Field(i).Set(reflect.ValueOf(named[k]))
+	}
+	if ptr {
+		return st.Interface()
+	}
+	return st.Elem().Interface()
+}
+
+// ExportNamed: placeholders @p<k> become @P<k> so that a struct can carry the arguments
+func (u *Unit) ExportNamed() {
+	m := map[string]interface{}{}
+	for k, v := range u.Named {
+		m["P"+k[1:]] = v
+		u.Tmpl = strings.ReplaceAll(u.Tmpl, "@"+k, "@P"+k[1:])
+	}
+	u.Named = m
 }
 func wrapArgs(args []interface{}, kinds []string) []interface{} {
 	if len(kinds) != len(args) {
@@ -650,6 +694,9 @@ func (u Unit) QueryArgs(db *gorm.DB, byID map[int]Atom) (interface{}, []interfac
 				args = append(args, sql.Named(k, u.Named[k]))
 			}
 			return u.Tmpl, args
+		}
+		if u.Via == "structarg" || u.Via == "structptr" {
+			return u.Tmpl, []interface{}{namedStruct(u.Named, u.Via == "structptr")}
 		}
 		return u.Tmpl, []interface{}{u.Named}
 	case "map", "empty_map":
@@ -870,8 +917,17 @@ func (g *Gen) GenUnit(depth int, hostile bool, allowGroup bool) Unit {
 			form = "raw"
 		}
 		u := Unit{Form: form, Tmpl: p.Tmpl, Txt: p.Txt, Args: p.Args, ArgKinds: p.ArgKinds, Named: p.Named, Tree: t}
-		if form == "named" && r.Chance(1, 3) {
-			u.Via = "sqlnamed"
+		if form == "named" {
+			switch r.Intn(6) {
+			case 0, 1:
+				u.Via = "sqlnamed"
+			case 2:
+				u.Via = "structarg"
+				u.ExportNamed()
+			case 3:
+				u.Via = "structptr"
+				u.ExportNamed()
+			}
 		}
 		return u
 	case "map":
